@@ -18,10 +18,12 @@
 import Chrono.Proofs.ParsedZonedL
 import Chrono.Proofs.ParsedZoneL
 import Chrono.Proofs.ParsedTsCompleteL
+import Chrono.Proofs.ParsedZFieldsL
+import Chrono.Proofs.ParsedKindsL
 
 namespace Chrono.Props.C14
 open Chrono Chrono.M Chrono.Spec Chrono.Spec.Fields Chrono.Spec.Ts Chrono.Proofs Chrono.Proofs.ParsedRes Chrono.Extracted
-open Chrono.Proofs.ParsedZone Chrono.M.TzL
+open Chrono.Proofs.ParsedZone Chrono.M.TzL Chrono.Proofs.ParsedZF Chrono.Proofs.ParsedKinds
 
 attribute [local instance] exceptDecEq
 
@@ -822,6 +824,356 @@ example :
       { year := some 2021, month := some 3, day := some 28, hour_div_12 := some 0, hour_mod_12 := some 3,
         minute := some 0 } ⟨1616893200, 3600, 7200⟩
       = .ok (.ok ⟨⟨dateOfYo 2021 87, ⟨3600, 0⟩⟩, 7200⟩) := by
+  decide +kernel
+
+/-! ### field-path completeness of the zone-aware resolvers (audit gap MEDIUM-1) -/
+
+/-- completeness of `to_datetime` on the FIELD path (what `%Y-%m-%d %H:%M:%S %z` reads): for every
+well-formed zone-aware value `z` whose wall clock is the existing day `(Y, o)` at the time of day `t`
+(leap seconds included), a record
+  * whose date fields — any subset containing a documented combination — agree with the day, with
+    determinate year groups (as in `date_complete`),
+  * whose time fields agree with `t` and are sufficient (as in `time_complete`),
+  * whose offset field is `z`'s offset — or is absent while a timestamp is supplied and `z` is at UTC,
+  * and whose timestamp field, if supplied, is the instant of `z` (or one more when `z` is a leap
+    second, the documented allowance)
+resolves to exactly `z`.  (On `date_complete`, `time_complete`, C04's `utc_of_fromUtc` /
+`local_of_fromLocal`.) -/
+theorem to_datetime_complete_fields (p : Parsed) (hp : InType p) (z : Zoned) (hz : ZInv z)
+    (Y : Int) (o : Nat) (t : Time) (hvd : VD Y o) (ht : TStrict t)
+    (hl : Zoned.naive_local z = .ok ⟨dateOfYo Y o, t⟩)
+    (hag : DateAgrees p Y o)
+    (hdY : GroupDeterminate p.year p.year_div_100 p.year_mod_100 Y)
+    (hdI : ∀ w, (dateOfYo Y o).iso_week = .ok w →
+      GroupDeterminate p.isoyear p.isoyear_div_100 p.isoyear_mod_100 (IsoWeek.year w))
+    (hc : UsesCalendar p ∨ UsesIso p) (hta : TimeAgrees p t) (hts : TimeSufficient p)
+    (hoff : p.offset = some z.off ∨ (p.offset = none ∧ p.timestamp ≠ none ∧ z.off = 0))
+    (hstamp : ∀ g, p.timestamp = some g →
+      g = instSecs z.utc ∨ (1000000000 ≤ z.utc.time.frac ∧ g = instSecs z.utc + 1)) :
+    Parsed.to_datetime p = .ok (.ok z) :=
+  to_datetime_complete_fields' p hp z hz Y o t hvd ht hl hag hdY hdI hc hta hts hoff hstamp
+
+/-- completeness of `to_datetime_with_timezone` for the fixed zone `z.off` (`Utc`: 0) on the FIELD
+path: as above; an offset field, if supplied, is the zone's offset.  `hrep`: a supplied timestamp is
+not beyond the last representable second — this can only fail for the `+1` reading of a leap second
+in the last second of the representable range, where this resolver (unlike `to_datetime`) answers
+OUT_OF_RANGE because it first converts the timestamp to a date-time: `tz_leap_at_max` below. -/
+theorem to_datetime_with_timezone_complete_fields (p : Parsed) (hp : InType p) (z : Zoned) (hz : ZInv z)
+    (Y : Int) (o : Nat) (t : Time) (hvd : VD Y o) (ht : TStrict t)
+    (hl : Zoned.naive_local z = .ok ⟨dateOfYo Y o, t⟩)
+    (hag : DateAgrees p Y o)
+    (hdY : GroupDeterminate p.year p.year_div_100 p.year_mod_100 Y)
+    (hdI : ∀ w, (dateOfYo Y o).iso_week = .ok w →
+      GroupDeterminate p.isoyear p.isoyear_div_100 p.isoyear_mod_100 (IsoWeek.year w))
+    (hc : UsesCalendar p ∨ UsesIso p) (hta : TimeAgrees p t) (hts : TimeSufficient p)
+    (hoff : ∀ x, p.offset = some x → x = z.off)
+    (hstamp : ∀ g, p.timestamp = some g →
+      g = instSecs z.utc ∨ (1000000000 ≤ z.utc.time.frac ∧ g = instSecs z.utc + 1))
+    (hrep : ∀ g, p.timestamp = some g → g ≤ TS_MAX) :
+    Parsed.to_datetime_with_timezone p z.off = .ok (.ok z) :=
+  to_datetime_tz_complete_fields p hp z hz Y o t hvd ht hl hag hdY hdI hc hta hts hoff hstamp hrep
+
+/-- when the timestamp field is exactly the instant of `z` (what a record derived from `z` holds),
+`hrep` is automatic -/
+theorem to_datetime_with_timezone_complete_fields_exact (p : Parsed) (hp : InType p) (z : Zoned)
+    (hz : ZInv z) (Y : Int) (o : Nat) (t : Time) (hvd : VD Y o) (ht : TStrict t)
+    (hl : Zoned.naive_local z = .ok ⟨dateOfYo Y o, t⟩)
+    (hag : DateAgrees p Y o)
+    (hdY : GroupDeterminate p.year p.year_div_100 p.year_mod_100 Y)
+    (hdI : ∀ w, (dateOfYo Y o).iso_week = .ok w →
+      GroupDeterminate p.isoyear p.isoyear_div_100 p.isoyear_mod_100 (IsoWeek.year w))
+    (hc : UsesCalendar p ∨ UsesIso p) (hta : TimeAgrees p t) (hts : TimeSufficient p)
+    (hoff : ∀ x, p.offset = some x → x = z.off)
+    (hstamp : ∀ g, p.timestamp = some g → g = instSecs z.utc) :
+    Parsed.to_datetime_with_timezone p z.off = .ok (.ok z) :=
+  to_datetime_tz_complete_fields p hp z hz Y o t hvd ht hl hag hdY hdI hc hta hts hoff
+    (fun g hg => Or.inl (hstamp g hg))
+    (fun g hg => by rw [hstamp g hg]; exact (Chrono.Proofs.Ts.instSecs_range z.utc hz.1).2)
+
+/-- the excluded input of `to_datetime_with_timezone_complete_fields` (kernel-checked): the leap
+second 23:59:60 of the last representable day, timestamp field = its instant + 1 = `TS_MAX + 1`.
+`to_naive_datetime_with_offset` and `to_datetime` accept it (the documented allowance),
+`to_datetime_with_timezone(&Utc)` reports OUT_OF_RANGE (it converts the timestamp first); with the
+exact timestamp `TS_MAX` all three resolve. -/
+theorem tz_leap_at_max :
+    let p : Parsed := {
+      year := some 262142, month := some 12, day := some 31, hour_div_12 := some 1,
+      hour_mod_12 := some 11, minute := some 59, second := some 60, offset := some 0,
+      timestamp := some 8210266876800 }
+    TS_MAX + 1 = 8210266876800 ∧
+    Parsed.to_naive_datetime_with_offset p 0 = .ok (.ok ⟨dateOfYo 262142 365, ⟨86399, 1000000000⟩⟩) ∧
+    Parsed.to_datetime p = .ok (.ok ⟨⟨dateOfYo 262142 365, ⟨86399, 1000000000⟩⟩, 0⟩) ∧
+    Parsed.to_datetime_with_timezone p 0 = .ok (.error .outOfRange) ∧
+    Parsed.to_datetime_with_timezone { p with timestamp := some 8210266876799 } 0
+      = .ok (.ok ⟨⟨dateOfYo 262142 365, ⟨86399, 1000000000⟩⟩, 0⟩) := by
+  decide +kernel
+
+/-- non-vacuity of the two theorems: 2024-02-29T12:00:00.5+01:00, all hypotheses that are not
+computations exhibited, both resolvers evaluated -/
+example :
+    let p : Parsed := {
+      year := some 2024, month := some 2, day := some 29, hour_div_12 := some 1,
+      hour_mod_12 := some 0, minute := some 0, second := some 0, nanosecond := some 500000000,
+      offset := some 3600, timestamp := some 1709204400 }
+    let z : Zoned := ⟨⟨dateOfYo 2024 60, ⟨39600, 500000000⟩⟩, 3600⟩
+    ZInv z ∧ VD 2024 60 ∧ TStrict ⟨43200, 500000000⟩ ∧
+    Zoned.naive_local z = .ok ⟨dateOfYo 2024 60, ⟨43200, 500000000⟩⟩ ∧
+    UsesCalendar p ∧ TimeSufficient p ∧ p.offset = some z.off ∧ p.timestamp = some (instSecs z.utc) ∧
+    Parsed.to_datetime p = .ok (.ok z) ∧ Parsed.to_datetime_with_timezone p 3600 = .ok (.ok z) := by
+  refine ⟨by decide +kernel, by unfold VD; decide, by decide, by decide +kernel,
+    ⟨Or.inl (by simp), Or.inl ⟨by simp, by simp⟩⟩, ⟨by simp, by simp, by simp, fun _ => by simp⟩, rfl,
+    by decide +kernel, by decide +kernel, by decide +kernel⟩
+
+/-- completeness for ANY time zone on the field path: `z` is a well-formed value whose wall clock is
+the day `(Y, o)` at `t`; date and time fields agree with it and are sufficient; the zone's guessed
+offset (`GuessIs`) is `z`'s offset whenever a timestamp is supplied; the zone answers the wall clock
+with well-formed, pairwise different candidates `m` among which `z` is the only one consistent with
+the offset and timestamp fields ⇒ exactly `z`.  (Compared with `tz_gen_resolution`, the naive
+resolution is no longer a hypothesis: it follows from field agreement.) -/
+theorem tz_gen_complete_fields (p : Parsed) (hp : InType p) (ofu : NaiveDT → Res Int)
+    (fl : NaiveDT → Res (Mapped Zoned)) (z : Zoned) (hz : ZInv z)
+    (Y : Int) (o : Nat) (t : Time) (hvd : VD Y o) (ht : TStrict t)
+    (hl : Zoned.naive_local z = .ok ⟨dateOfYo Y o, t⟩)
+    (hag : DateAgrees p Y o)
+    (hdY : GroupDeterminate p.year p.year_div_100 p.year_mod_100 Y)
+    (hdI : ∀ w, (dateOfYo Y o).iso_week = .ok w →
+      GroupDeterminate p.isoyear p.isoyear_div_100 p.isoyear_mod_100 (IsoWeek.year w))
+    (hc : UsesCalendar p ∨ UsesIso p) (hta : TimeAgrees p t) (hts : TimeSufficient p)
+    (g : Int) (hg : GuessIs p ofu g) (hgz : p.timestamp ≠ none → g = z.off)
+    (m : Mapped Zoned) (hm : fl ⟨dateOfYo Y o, t⟩ = .ok m) (hcand : ∀ c ∈ m.toList, ZInv c)
+    (hmem : z ∈ m.toList) (hcons : Consistent p z) (hnd : ∀ a b, m = .ambiguous a b → a ≠ b)
+    (hother : ∀ c ∈ m.toList, c ≠ z → ¬ Consistent p c) :
+    Parsed.to_datetime_with_timezone_gen p ofu fl = .ok (.ok z) :=
+  gen_complete_fields p hp ofu fl z hz Y o t hvd ht hl hag hdY hdI hc hta hts g hg hgz m hm hcand hmem
+    hcons hnd hother
+
+/-- completeness for the STEP ZONES on the field path: `z` is a value of the step zone `zn` reading
+the day `(Y, o)` at `t` on the zone's wall clock (`StepCandidate`: well formed, that wall clock, the
+zone's offset at its own instant); date and time fields agree and are sufficient; `z` is consistent
+with the offset and timestamp fields and no other value of the zone with that wall clock is — outside
+a fold there is no other one, inside a fold the offset field or the timestamp field must single `z`
+out ⇒ `to_datetime_with_timezone(&zn)` returns exactly `z`.
+`hq` concerns only a timestamp field that is not the instant of `z`, i.e. the `+1` reading of a leap
+second: that instant is representable and on `z`'s side of the transition.  `hrep`: every UTC reading
+the zone lists for the wall clock is representable (chrono's provided `from_local_datetime` answers
+`None` for the whole lookup otherwise; only within a day of the ends of the range). -/
+theorem step_zone_complete (p : Parsed) (hp : InType p) (zn : StepZone) (h1 : OffValid zn.o1)
+    (h2 : OffValid zn.o2) (z : Zoned) (Y : Int) (o : Nat) (t : Time) (hvd : VD Y o) (ht : TStrict t)
+    (hag : DateAgrees p Y o)
+    (hdY : GroupDeterminate p.year p.year_div_100 p.year_mod_100 Y)
+    (hdI : ∀ w, (dateOfYo Y o).iso_week = .ok w →
+      GroupDeterminate p.isoyear p.isoyear_div_100 p.isoyear_mod_100 (IsoWeek.year w))
+    (hc : UsesCalendar p ∨ UsesIso p) (hta : TimeAgrees p t) (hts : TimeSufficient p)
+    (hcand : StepCandidate zn ⟨dateOfYo Y o, t⟩ z) (hcons : Consistent p z)
+    (hq : ∀ ts, p.timestamp = some ts → ts ≠ instSecs z.utc → ts ≤ TS_MAX ∧ zn.offset_at ts = z.off)
+    (hrep : ∀ o' ∈ (zn.local_offsets (instSecs ⟨dateOfYo Y o, t⟩)).toList,
+      InRangeSecs (instSecs ⟨dateOfYo Y o, t⟩ - o'))
+    (hother : ∀ c, StepCandidate zn ⟨dateOfYo Y o, t⟩ c → c ≠ z → ¬ Consistent p c) :
+    Parsed.to_datetime_with_step_zone p zn = .ok (.ok z) :=
+  step_complete_fields p hp zn h1 h2 z Y o t hvd ht hag hdY hdI hc hta hts hcand hcons hq hrep hother
+
+/-- every value of a step zone is found by the zone's local-time lookup: a `StepCandidate` for the
+local date-time `l` is among the candidates `from_local_datetime` returns for `l` (and the candidates
+are pairwise different), provided all listed UTC readings are representable -/
+theorem step_zone_lookup_complete (zn : StepZone) (h1 : OffValid zn.o1) (h2 : OffValid zn.o2)
+    (l : NaiveDT) (hl : NDTInv l) (c : Zoned) (hc : StepCandidate zn l c)
+    (hrep : ∀ o ∈ (zn.local_offsets (instSecs l)).toList, InRangeSecs (instSecs l - o)) :
+    ∃ m, zn.from_local_datetime l = .ok m ∧ c ∈ m.toList ∧ (∀ a b, m = .ambiguous a b → a ≠ b) :=
+  step_candidate_mem zn h1 h2 l hl c hc hrep
+
+/-- non-vacuity of `step_zone_complete` in the fold of `foldZone` (02:30 local occurs twice): the
+second pass `z₂ = 01:30Z +01:00` is a `StepCandidate`, the record `inFold` + offset 3600 is consistent
+with it and not with the first pass `z₁ = 00:30Z +02:00` (also a `StepCandidate`); the listed readings
+are representable -/
+example :
+    let l : NaiveDT := ⟨dateOfYo 2021 304, ⟨9000, 0⟩⟩
+    let z1 : Zoned := ⟨⟨dateOfYo 2021 304, ⟨1800, 0⟩⟩, 7200⟩
+    let z2 : Zoned := ⟨⟨dateOfYo 2021 304, ⟨5400, 0⟩⟩, 3600⟩
+    foldZone.local_offsets (instSecs l) = .ambiguous 7200 3600 ∧
+    InRangeSecs (instSecs l - 7200) ∧ InRangeSecs (instSecs l - 3600) ∧
+    consistentB { inFold with offset := some 3600 } z2 = true ∧
+    consistentB { inFold with offset := some 3600 } z1 = false ∧
+    Zoned.naive_local z1 = .ok l ∧ Zoned.naive_local z2 = .ok l ∧
+    foldZone.offset_at (instSecs z1.utc) = z1.off ∧ foldZone.offset_at (instSecs z2.utc) = z2.off ∧
+    Parsed.to_datetime_with_step_zone { inFold with offset := some 3600 } foldZone = .ok (.ok z2) := by
+  decide +kernel
+
+/-! ### which error the combined resolvers report (audit gap MEDIUM-2) -/
+
+/-- the decision table of `to_naive_datetime_with_offset`, EVERY record and `i32` offset, in terms of
+the two component resolvers (whose own kinds are `date_error_kinds` / `time_error_kinds`):
+* both resolve: the pair, or IMPOSSIBLE iff the timestamp field contradicts it (`datetime_sound_fields`);
+* otherwise, WITHOUT a timestamp field: the date resolver's error, else the time resolver's error;
+* otherwise, WITH a timestamp field: OUT_OF_RANGE if either resolver reports OUT_OF_RANGE, else
+  IMPOSSIBLE if either reports IMPOSSIBLE, else whatever the fall-back path yields — and that is
+  NOT_ENOUGH only for a century-only ISO year group.
+In every case NOT_ENOUGH implies that the record does not hold a sufficient date and a sufficient
+time combination. -/
+theorem datetime_error_kinds (p : Parsed) (hp : InType p) (off : Int)
+    (hoff : -2147483648 ≤ off ∧ off ≤ 2147483647) :
+    ∃ rd, Parsed.to_naive_date p = .ok rd ∧
+      (p.timestamp = none →
+        Parsed.to_naive_datetime_with_offset p off = .ok (match rd, Parsed.to_naive_time p with
+          | .error e, _ => .error e
+          | .ok _, .error e => .error e
+          | .ok d, .ok t => .ok ⟨d, t⟩)) ∧
+      (∀ ts, p.timestamp = some ts →
+        (¬ ∃ d t, rd = .ok d ∧ Parsed.to_naive_time p = .ok t) →
+        ((rd = .error .outOfRange ∨ Parsed.to_naive_time p = .error .outOfRange) →
+          Parsed.to_naive_datetime_with_offset p off = .ok (.error .outOfRange)) ∧
+        (¬ (rd = .error .outOfRange ∨ Parsed.to_naive_time p = .error .outOfRange) →
+          (rd = .error .impossible ∨ Parsed.to_naive_time p = .error .impossible) →
+          Parsed.to_naive_datetime_with_offset p off = .ok (.error .impossible)) ∧
+        (¬ (rd = .error .outOfRange ∨ Parsed.to_naive_time p = .error .outOfRange) →
+          ¬ (rd = .error .impossible ∨ Parsed.to_naive_time p = .error .impossible) →
+          Parsed.to_naive_datetime_with_offset p off = Parsed.from_timestamp_path p off ts)) ∧
+      (Parsed.to_naive_datetime_with_offset p off = .ok (.error .notEnough) →
+        ¬ (DateSufficient p ∧ TimeSufficient p) ∧
+        (p.timestamp ≠ none → ¬ GroupUsable p.isoyear p.isoyear_div_100 p.isoyear_mod_100)) := by
+  obtain ⟨rd, hrd, _⟩ := date_main p hp
+  refine ⟨rd, hrd, fun hts => ?_, fun ts hts hnb => ?_, dt_not_enough_only p hp off hoff⟩
+  · obtain ⟨rd', hrd', h⟩ := dt_no_timestamp p hp off hoff hts
+    rw [hrd] at hrd'; cases hrd'; exact h
+  · obtain ⟨rd', hrd', h⟩ := dt_with_timestamp' p hp off ts hts (by
+      rintro ⟨d, t, hd, ht⟩
+      rw [hrd] at hd; cases hd
+      exact hnb ⟨d, t, rfl, ht⟩)
+    rw [hrd] at hrd'; cases hrd'; exact h
+
+/-- NOT_ENOUGH of `to_naive_datetime_with_offset`, exactly, for a record WITHOUT a timestamp field
+whose year groups are coherent and whose time fields are in range: reported iff the record does not
+hold a sufficient date AND a sufficient time combination — unless the date resolver itself reports
+IMPOSSIBLE / OUT_OF_RANGE (a contradicting or non-existent date is reported first).
+(The audit's proposed form `… ↔ ¬(DateSufficient ∧ TimeSufficient) ∧ timestamp = none` is false as
+it stands: `{year 2023, month 2, day 30}` is OUT_OF_RANGE (the date resolver's error comes first)
+although the time is missing, and `{timestamp, isoyear_div_100}` is NOT_ENOUGH although a timestamp is present — see the
+example below; for records DERIVED from a value it is true: `datetime_not_enough_iff_derived`.) -/
+theorem datetime_not_enough_iff (p : Parsed) (hp : InType p) (off : Int)
+    (hoff : -2147483648 ≤ off ∧ off ≤ 2147483647)
+    (hcY : GroupCoherent p.year p.year_div_100 p.year_mod_100)
+    (hcI : GroupCoherent p.isoyear p.isoyear_div_100 p.isoyear_mod_100) (hr : TimeInRange p)
+    (hts : p.timestamp = none) :
+    Parsed.to_naive_datetime_with_offset p off = .ok (.error .notEnough) ↔
+      (¬ (DateSufficient p ∧ TimeSufficient p) ∧
+        ¬ ∃ e, e ≠ .notEnough ∧ Parsed.to_naive_date p = .ok (.error e)) :=
+  dt_not_enough_iff p hp off hoff hcY hcI hr hts
+
+/-- NOT_ENOUGH on fields DERIVED from one local reading — any subset of the 20 date/time/timestamp
+fields agreeing with the existing day `(Y, o)` and the time of day `t` (leap second or not), year
+groups determinate: reported exactly when there is no timestamp field and the record does not hold
+a sufficient date and a sufficient time combination.  (So a derived record never yields IMPOSSIBLE
+or OUT_OF_RANGE instead of NOT_ENOUGH, and a timestamp field always suffices.) -/
+theorem datetime_not_enough_iff_derived (p : Parsed) (hp : InType p) (off : Int)
+    (hoff : -2147483648 ≤ off ∧ off ≤ 2147483647) (Y : Int) (o : Nat) (t : Time) (hvd : VD Y o)
+    (ht : TValid t) (hag : DateAgrees p Y o)
+    (hdY : GroupDeterminate p.year p.year_div_100 p.year_mod_100 Y)
+    (hdI : ∀ w, (dateOfYo Y o).iso_week = .ok w →
+      GroupDeterminate p.isoyear p.isoyear_div_100 p.isoyear_mod_100 (IsoWeek.year w))
+    (hta : TimeAgreesSupplied p t) :
+    Parsed.to_naive_datetime_with_offset p off = .ok (.error .notEnough) ↔
+      (p.timestamp = none ∧ ¬ (DateSufficient p ∧ TimeSufficient p)) :=
+  dt_not_enough_iff_derived p hp off hoff Y o t hvd ht hag hdY hdI hta
+
+/-- non-vacuity / the corner cases: no timestamp and no time → NOT_ENOUGH; a non-existent date
+without time → the date's OUT_OF_RANGE comes first; a timestamp with a century-only ISO year group →
+NOT_ENOUGH; a timestamp with a century-only calendar year group resolves (the century is checked
+against the reconstructed year); an out-of-range minute beside a timestamp → OUT_OF_RANGE; a
+contradicting date beside a timestamp → IMPOSSIBLE -/
+example :
+    Parsed.to_naive_datetime_with_offset { year := some 2023, month := some 2, day := some 28 } 0
+      = .ok (.error .notEnough) ∧
+    Parsed.to_naive_datetime_with_offset { year := some 2023, month := some 2, day := some 30 } 0
+      = .ok (.error .outOfRange) ∧
+    Parsed.to_naive_datetime_with_offset { timestamp := some 0, isoyear_div_100 := some 19 } 0
+      = .ok (.error .notEnough) ∧
+    Parsed.to_naive_datetime_with_offset { timestamp := some 0, year_div_100 := some 19 } 0
+      = .ok (.ok ⟨dateOfYo 1970 1, ⟨0, 0⟩⟩) ∧
+    Parsed.to_naive_datetime_with_offset
+      { timestamp := some 0, hour_div_12 := some 0, hour_mod_12 := some 0, minute := some 60 } 0
+      = .ok (.error .outOfRange) ∧
+    Parsed.to_naive_datetime_with_offset
+      { timestamp := some 0, year := some 1970, month := some 1, day := some 1, ordinal := some 2 } 0
+      = .ok (.error .impossible) := by
+  decide +kernel
+
+/-- `to_datetime`, EVERY record, stage by stage — which error kind and when:
+* neither offset nor timestamp field: NOT_ENOUGH;
+* otherwise the naive stage runs at the supplied offset (0 without one) and its error is passed on
+  (`datetime_error_kinds`);
+* the naive stage succeeded with `dt`: OUT_OF_RANGE iff the offset is not strictly within ±24 h;
+  else IMPOSSIBLE iff the UTC reading `dt − offset` is not representable; else the value with that
+  offset and wall clock `dt`. -/
+theorem to_datetime_error_kinds (p : Parsed) (hp : InType p) :
+    (p.offset = none → p.timestamp = none → Parsed.to_datetime p = .ok (.error .notEnough)) ∧
+    ((p.offset ≠ none ∨ p.timestamp ≠ none) →
+      ∃ r, Parsed.to_naive_datetime_with_offset p (p.offset.getD 0) = .ok r ∧
+        (∀ e, r = .error e → Parsed.to_datetime p = .ok (.error e)) ∧
+        (∀ dt, r = .ok dt →
+          (¬ OffValid (p.offset.getD 0) → Parsed.to_datetime p = .ok (.error .outOfRange)) ∧
+          (OffValid (p.offset.getD 0) → ¬ InRangeSecs (instSecs dt - p.offset.getD 0) →
+            Parsed.to_datetime p = .ok (.error .impossible)) ∧
+          (OffValid (p.offset.getD 0) → InRangeSecs (instSecs dt - p.offset.getD 0) →
+            ∃ z, Parsed.to_datetime p = .ok (.ok z) ∧ z.off = p.offset.getD 0 ∧
+              Zoned.naive_local z = .ok dt))) :=
+  to_datetime_stages p hp
+
+/-- NOT_ENOUGH of `to_datetime`, exactly, EVERY record: neither offset nor timestamp is supplied, or
+the naive stage reports NOT_ENOUGH (`datetime_not_enough_iff…`) -/
+theorem to_datetime_not_enough_iff (p : Parsed) (hp : InType p) :
+    Parsed.to_datetime p = .ok (.error .notEnough) ↔
+      ((p.offset = none ∧ p.timestamp = none) ∨
+       Parsed.to_naive_datetime_with_offset p (p.offset.getD 0) = .ok (.error .notEnough)) :=
+  to_datetime_not_enough_iff' p hp
+
+/-- `to_datetime_with_timezone` for a fixed zone, EVERY record, stage by stage: a timestamp field
+that is no representable instant (with the nanosecond field) is OUT_OF_RANGE; otherwise the naive
+stage runs at the guessed offset `g` (0 without timestamp, else the zone's offset) and its error is
+passed on; on success with `dt`: IMPOSSIBLE iff the UTC reading `dt − zone` is not representable or
+the offset field differs from the zone's offset; else the value at the zone's offset with wall
+clock `dt`.  (Zone-generic analogue: `tz_gen_error_kinds` / `tz_gen_resolution`.) -/
+theorem to_datetime_with_timezone_error_kinds (p : Parsed) (hp : InType p) (zone : Int)
+    (hz : OffValid zone) :
+    (∀ ts, p.timestamp = some ts → ¬ tsOk ts (p.nanosecond.getD 0) →
+      Parsed.to_datetime_with_timezone p zone = .ok (.error .outOfRange)) ∧
+    (∀ g, (p.timestamp = none ∧ g = 0) ∨
+        (∃ ts, p.timestamp = some ts ∧ tsOk ts (p.nanosecond.getD 0) ∧ g = zone) →
+      ∃ r, Parsed.to_naive_datetime_with_offset p g = .ok r ∧
+        (∀ e, r = .error e → Parsed.to_datetime_with_timezone p zone = .ok (.error e)) ∧
+        (∀ dt, r = .ok dt →
+          ((¬ InRangeSecs (instSecs dt - zone) ∨ ∃ x, p.offset = some x ∧ x ≠ zone) →
+            Parsed.to_datetime_with_timezone p zone = .ok (.error .impossible)) ∧
+          (InRangeSecs (instSecs dt - zone) → (∀ x, p.offset = some x → x = zone) →
+            ∃ z, Parsed.to_datetime_with_timezone p zone = .ok (.ok z) ∧ z.off = zone ∧
+              Zoned.naive_local z = .ok dt))) :=
+  to_datetime_tz_stages p hp zone hz
+
+/-- NOT_ENOUGH of `to_datetime_with_timezone` (fixed zone), exactly: the naive stage at the guessed
+offset reports it — a missing offset FIELD is never a reason here (the zone supplies the offset) -/
+theorem to_datetime_with_timezone_not_enough_iff (p : Parsed) (hp : InType p) (zone : Int)
+    (hz : OffValid zone) :
+    Parsed.to_datetime_with_timezone p zone = .ok (.error .notEnough) ↔
+      ((p.timestamp = none ∧ Parsed.to_naive_datetime_with_offset p 0 = .ok (.error .notEnough)) ∨
+       (∃ ts, p.timestamp = some ts ∧ tsOk ts (p.nanosecond.getD 0) ∧
+         Parsed.to_naive_datetime_with_offset p zone = .ok (.error .notEnough))) :=
+  to_datetime_tz_not_enough_iff p hp zone hz
+
+/-- non-vacuity of the zone-aware tables: no offset and no timestamp; date and offset but no time
+(naive NOT_ENOUGH passed on); an offset of a whole day (OUT_OF_RANGE after a successful naive stage);
+the first representable second at +01:00 (UTC reading not representable: IMPOSSIBLE); a timestamp
+beyond the range in a fixed zone (OUT_OF_RANGE before anything else); an offset field contradicting
+the zone (IMPOSSIBLE); a fixed zone needs no offset field -/
+example :
+    Parsed.to_datetime { year := some 2024, ordinal := some 60 } = .ok (.error .notEnough) ∧
+    Parsed.to_datetime { year := some 2024, ordinal := some 60, offset := some 0 } = .ok (.error .notEnough) ∧
+    Parsed.to_datetime { timestamp := some 0, offset := some 86400 } = .ok (.error .outOfRange) ∧
+    Parsed.to_datetime {
+      year := some (-262143), ordinal := some 1, hour_div_12 := some 0, hour_mod_12 := some 0,
+      minute := some 0, offset := some 3600 } = .ok (.error .impossible) ∧
+    Parsed.to_datetime_with_timezone { timestamp := some 8210266876800 } 0 = .ok (.error .outOfRange) ∧
+    Parsed.to_datetime_with_timezone { timestamp := some 0, offset := some 3600 } 0
+      = .ok (.error .impossible) ∧
+    Parsed.to_datetime_with_timezone { timestamp := some 0 } 3600
+      = .ok (.ok ⟨⟨dateOfYo 1970 1, ⟨0, 0⟩⟩, 3600⟩) := by
   decide +kernel
 
 /-- no resolver panics: for every record of in-type field values, every `i32` offset argument and
